@@ -27,7 +27,12 @@ RULE = ("Meshes: generated polylines (paths, cycles, trees, random simple graphs
         "attribute) before the tree; a second tree / forest built on the same mesh with another root and the SAME exclusion-set / "
         "weights object (arguments are snapshotted and must be unchanged, the first tree's tables must stay as they were); for the MST "
         "a pre-existing edge attribute named 'length' (fresh / set by the user / stale because vertices were moved afterwards), "
-        "coordinates uniformly scaled by 1e-6..1e6, integer-typed coordinates, roots given as numpy integers.")
+        "coordinates uniformly scaled by 1e-6..1e6, integer-typed coordinates, roots given as numpy integers. Iteration histories on one "
+        "tree / forest: a traversal abandoned half-way (iterator kept alive, or dropped by `break`) followed by complete ones, BFS and DFS "
+        "iterators advanced in lock-step, the first tree traversed again after a second tree exists. Several forest objects alive at once "
+        "(a second one on the same mesh, another one on a different small mesh): the first is fully re-inspected afterwards. A few "
+        "meshes above 1000 elements (size regime). Returned lists (forest.edges) are mutated and re-read; dict weights in both "
+        "insertion orders.")
 ASSUMPTIONS = ["meshes are what the data model represents (simple 1-skeleton, manifold surfaces, conforming tet meshes); "
                "exclusion sets contain valid edge / face indices; dict weights give a finite float for every edge",
                "a volume mesh's boundary edges are the edges of its boundary faces (VolumeMesh.is_edge_on_border)"]
@@ -102,8 +107,36 @@ def volume_meshes(draw, max_cells=40):
     return {"kind": "volume", "V": V, "C": [list(map(int, c)) for c in C], "tags": tags}
 
 
+@st.composite
+def big_meshes(draw):
+    """size regime: a few meshes with more than 1000 vertices / faces / 380 cells (no internal threshold is known; this guards one)"""
+    k = draw(st.sampled_from(["surface", "surface_tri", "polyline", "volume"]))
+    if k in ("surface", "surface_tri", "polyline"):
+        nu, nv = draw(st.integers(30, 36)), draw(st.integers(31, 34))
+        V, F = G.grid(nu, nv)
+        if k == "polyline":
+            ref = SurfRef(len(V), F)
+            return {"kind": "polyline", "V": V, "E": [list(e) for e in sorted(ref.uedges)], "tags": ["base=biggrid", "big"]}
+        if k == "surface_tri":
+            V, F = G.op_triangulate_all(V, F, draw(st.integers(0, 3)))
+        # a hole in the middle so that exclusions / border avoidance matter
+        hole = set(range(len(F) // 2, len(F) // 2 + draw(st.integers(0, 3))))
+        F2 = [f for i, f in enumerate(F) if i not in hole]
+        if SurfRef(len(V), F2).validate() is None:      # (removing faces that only touch at a vertex would pinch the surface)
+            F = F2
+        return {"kind": "surface", "V": V, "F": [list(map(int, f)) for f in F], "tags": ["base=biggrid", "big"] + G.tags_of(V, F)}
+    V, C = T.kuhn(4, 4, 4)
+    C = T.orient_all(V, C, True)
+    return {"kind": "volume", "V": [[float(x) for x in v] for v in V], "C": [list(map(int, c)) for c in C], "tags": ["base=bigkuhn", "big"]}
+
+
 def any_mesh():
-    return st.one_of(polylines(), surface_meshes(), surface_meshes(), volume_meshes())
+    small = st.one_of(polylines(), surface_meshes(), surface_meshes(), volume_meshes())
+    return st.integers(0, 59).flatmap(lambda i: big_meshes() if i == 0 else small)
+
+
+def with_big(small, kinds):
+    return st.integers(0, 59).flatmap(lambda i: big_meshes().filter(lambda m: m["kind"] in kinds) if i == 0 else small)
 
 
 class Model:
@@ -240,6 +273,7 @@ def mst_case(draw):
          "weights_mode": wm, "weights": weights, "style": style, "sort": draw(st.booleans())}
     c.update(draw_history(draw, n))
     c["mode2"] = draw(st.sampled_from(["same", "same", "one", "length"]))
+    c["dict_rev"] = draw(st.booleans())
     # uniform scaling of the geometry (lengths are scale covariant, the tree must not depend on the unit)
     sc = draw(st.sampled_from([1.0, 1.0, 1.0, 1e-3, 1e-6, 1e3, 1e6]))
     if sc != 1.0:
@@ -260,7 +294,7 @@ def mst_case(draw):
 
 @st.composite
 def face_tree_case(draw):
-    mc = draw(surface_meshes())
+    mc = draw(with_big(surface_meshes(), ("surface",)))
     mod = Model(mc)
     n, links = mod.links("face")
     mode, forb = draw_exclusion(draw, n, links)
@@ -275,7 +309,7 @@ def face_tree_case(draw):
 
 @st.composite
 def cell_tree_case(draw):
-    mc = draw(volume_meshes())
+    mc = draw(with_big(volume_meshes(), ("volume",)))
     mod = Model(mc)
     n, links = mod.links("cell")
     mode, forb = draw_exclusion(draw, n, links)
@@ -350,7 +384,7 @@ def build(case, ctx):
         if case.get("length_attr", "none") == "none":
             M.attributes.edge_length(m)
     for t in mc.get("tags", []):
-        if t.startswith(("base=", "comps=", "closed", "bordered", "union", "part=", "coords=")):
+        if t.startswith(("base=", "comps=", "closed", "bordered", "union", "part=", "coords=", "big")):
             ctx.label(t)
     ctx.label("mesh=" + mc["kind"])
     medges = [key(e) for e in m.edges]
@@ -506,6 +540,38 @@ def check_traverse(ctx, tag, tree, parent, root, reached, depth, orders=("BFS", 
                 path.append(v)
 
 
+def check_traverse_histories(ctx, tag, obj):
+    """Iterators of one tree / forest must be independent of each other: abandoned, interleaved and restarted traversals.
+    Reference = complete traversals made first (validated elsewhere)."""
+    ok, ref = ctx.call(tag + "traverse:call", lambda: {o: list(obj.traverse(o)) for o in ("BFS", "DFS")})
+    if not ok or len(ref["BFS"]) < 2:
+        return
+    refB, refD = ref["BFS"], ref["DFS"]
+    k = max(1, len(refB) // 2)
+
+    def run():
+        out = {}
+        it = obj.traverse("BFS")                       # abandoned half-way, iterator object kept alive
+        head = [next(it) for _ in range(k)]
+        out["after-abandoned-DFS"] = (list(obj.traverse("DFS")), refD)
+        out["after-abandoned-BFS"] = (list(obj.traverse("BFS")), refB)
+        out["resumed"] = (head + list(it), refB)         # the suspended iterator finishes its own traversal
+        for x in obj.traverse("DFS"):                   # consumer breaks out of the loop
+            break
+        out["after-break-DFS"] = (list(obj.traverse("DFS")), refD)
+        out["after-break-BFS"] = (list(obj.traverse("BFS")), refB)
+        out["lock-step"] = (list(zip(obj.traverse("BFS"), obj.traverse("DFS"))), list(zip(refB, refD)))
+        out["lock-step-same-order"] = (list(zip(obj.traverse("BFS"), obj.traverse("BFS"))), list(zip(refB, refB)))
+        return out
+    ok, out = ctx.call(tag + "traverse:histories", run)
+    if not ok:
+        return
+    for name, (got, exp) in out.items():
+        if not ctx.check(got == exp, tag + "traverse:history:" + name,
+                         f"{name}: the traversal yields {len(got)} items {got[:8]}..., a fresh complete traversal yields {len(exp)} items {exp[:8]}..."):
+            return
+
+
 def check_spanning_tree(ctx, tag, tree, n, adm_links, root_expected, bfs=True, orders=("BFS", "DFS")):
     """tree: a computed BFS spanning tree over n elements; adm_links: admissible (a, b, carrier) adjacencies.
     Returns the sorted reached list or None."""
@@ -551,6 +617,7 @@ def check_spanning_tree(ctx, tag, tree, n, adm_links, root_expected, bfs=True, o
         ctx.check(not bad, tag + "bfs-depth", f"root {root}: (element, depth in tree, minimum hop distance) = {bad[:5]}")
     if ok:
         check_traverse(ctx, tag, tree, parent, root, reached, depth, orders)
+        check_traverse_histories(ctx, tag, tree)
     return reached
 
 
@@ -616,6 +683,7 @@ def run_trees(ctx, tag, case, n, make, adm1, adm2, argset, what):
         return
     ctx.label("second-tree")
     tabs1 = snapshot_tables(tree)
+    trav1 = list(tree.traverse("BFS")), list(tree.traverse("DFS"))
     t2 = tag + "second:"
     ok, tree2 = ctx.call(t2 + "construct", lambda: make(np_root(case, r2), True))
     if not ok:
@@ -627,6 +695,8 @@ def run_trees(ctx, tag, case, n, make, adm1, adm2, argset, what):
     check_spanning_tree(ctx, t2, tree2, n, adm2, r2, bfs=True)
     ctx.check(snapshot_tables(tree) == tabs1, tag + "first-tree-changed",
               "building a second tree on the same mesh changed the tables of the first tree")
+    ctx.check((list(tree.traverse("BFS")), list(tree.traverse("DFS"))) == trav1, tag + "first-tree-traverse-changed",
+              "after a second tree was built and traversed on the same mesh, the first tree traverses differently")
 
 
 # -------------------------------------------------------------------------------------------- sub-check: edge tree
@@ -727,6 +797,7 @@ def check_mst(ctx, tag, tree, n, adm, w, wm, root_expected):
     depth = depths_from_parent(ctx, tag, parent, root, reached, n)
     if ok2:
         check_traverse(ctx, tag, tree, parent, root, reached, depth)
+        check_traverse_histories(ctx, tag, tree)
     return True
 
 
@@ -778,7 +849,9 @@ def fn_mst(case, ctx):
         for a, b, x in case["weights"]:
             w[key(a, b)] = float(x)
         if wm == "dict":
-            arg = {eid[e]: w[e] for e in mod.edge_keys}
+            order = list(reversed(mod.edge_keys)) if case.get("dict_rev") else list(mod.edge_keys)
+            arg = {eid[e]: w[e] for e in order}                 # insertion order of the dict must not matter
+            ctx.label("dict-order=" + ("reversed" if case.get("dict_rev") else "sorted"))
             arg_snapshot = lambda: dict(arg)
         else:
             arg = m.edges.create_attribute("c10_weight", float, dense=(wm == "attr_dense"))
@@ -815,6 +888,7 @@ def fn_mst(case, ctx):
     ctx.label("second-tree", "second-weights=" + mode2)
     arg2, w2, wm2 = (arg, w, wm) if mode2 == "same" else ("one", w_one, "one") if mode2 == "one" else ("length", w_len, "length")
     tabs1 = snapshot_tables(tree)
+    trav1 = list(tree.traverse("BFS")), list(tree.traverse("DFS"))
     ok, tree2 = ctx.call("mst:second:construct", lambda: trees.EdgeMinimalSpanningTree(m, np_root(case, r2), avoid_boundary=ab, weights=arg2))
     if not ok:
         return
@@ -824,6 +898,8 @@ def fn_mst(case, ctx):
     untouched("mst:second:")
     check_mst(ctx, "mst:second:", tree2, n, adm, w2, wm2, r2)
     ctx.check(snapshot_tables(tree) == tabs1, "mst:first-tree-changed", "building a second MST on the same mesh changed the tables of the first one")
+    ctx.check((list(tree.traverse("BFS")), list(tree.traverse("DFS"))) == trav1, "mst:first-tree-traverse-changed",
+              "after a second MST was built and traversed on the same mesh, the first one traverses differently")
 
 
 # -------------------------------------------------------------------------------------------- sub-check: face tree
@@ -892,23 +968,48 @@ def fn_forest(case, ctx):
     first = validate_forest(ctx, "forest:" + what + ":", mk, n, adm, fset, fsnap)
     if first is None or not case.get("twice"):
         return
-    # a second forest on the same mesh object, with the same exclusion-set object
+    # several forest objects alive at the same time: a second one on the same mesh object (same exclusion-set object), then one on
+    # another small mesh; the first forest is inspected again after each of them was computed
     ctx.label("second-forest")
+    tag = "forest:" + what + ":"
     tabs1 = [snapshot_tables(t) for t in first.trees]
-    validate_forest(ctx, "forest:" + what + ":second:", mk, n, adm, fset, fsnap)
-    ctx.check([snapshot_tables(t) for t in first.trees] == tabs1, "forest:" + what + ":first-forest-changed",
-              "building a second forest on the same mesh changed the trees of the first one")
+    ids1 = [id(t) for t in first.trees]
+    roots1 = list(first.roots)
+    second = validate_forest(ctx, tag + "second:", mk, n, adm, fset, fsnap)
+
+    def first_intact(when):
+        ok = ctx.check([id(t) for t in first.trees] == ids1 and list(first.roots) == roots1, tag + "first-forest-replaced",
+                       f"after {when}, the first forest's trees / roots are other objects than before ({len(first.trees)} trees, roots {list(first.roots)[:8]}; "
+                       f"before {len(ids1)} trees, roots {roots1[:8]})")
+        ok = ok and ctx.check([snapshot_tables(t) for t in first.trees] == tabs1, tag + "first-forest-changed",
+                              f"{when} changed the trees of the first forest")
+        if ok:
+            validate_forest(ctx, tag + "reinspected:", mk, n, adm, fset, fsnap, forest=first)
+        return ok
+    if not first_intact("building a second forest on the same mesh"):
+        return
+    other_mesh = polyline_from(OTHER_V, OTHER_E)
+    other_links = [(a, b, (a, b)) for a, b in OTHER_E]
+    other = validate_forest(ctx, tag + "other:", lambda: trees.EdgeSpanningForest(other_mesh), len(OTHER_V), other_links, None, None)
+    if not first_intact("computing a forest on another mesh"):
+        return
+    if second is not None:
+        validate_forest(ctx, tag + "second:reinspected:", mk, n, adm, fset, fsnap, forest=second)
+    if other is not None:
+        validate_forest(ctx, tag + "other:reinspected:", None, len(OTHER_V), other_links, None, None, forest=other)
 
 
-def validate_forest(ctx, tag, mk, n, adm, fset, fsnap):
-    """build + compute + validate one forest; returns it (None when validation stopped early)"""
-    ok, forest = ctx.call(tag + "construct", mk)
-    if not ok:
-        return
-    ok, r = ctx.call(tag + "compute", forest)
-    if not ok:
-        return
-    ctx.check(r is forest, tag + "call-returns-self", "forest() does not return the forest")
+def validate_forest(ctx, tag, mk, n, adm, fset, fsnap, forest=None):
+    """build + compute + validate one forest (or re-inspect the already computed `forest`); returns it (None when validation
+    stopped early)"""
+    if forest is None:
+        ok, forest = ctx.call(tag + "construct", mk)
+        if not ok:
+            return
+        ok, r = ctx.call(tag + "compute", forest)
+        if not ok:
+            return
+        ctx.check(r is forest, tag + "call-returns-self", "forest() does not return the forest")
     if fset is not None:
         ctx.check(fset == fsnap, tag + "input-mutated",
                   f"the caller's forbidden_edges set was modified by the forest ({len(fsnap)} ids before, {len(fset)} after)")
@@ -950,6 +1051,14 @@ def validate_forest(ctx, tag, mk, n, adm, fset, fsnap):
             ctx.check(sorted(key(e) for e in fe) == sorted(all_edges), tag + "edges-union",
                       f"forest.edges ({len(fe)}) is not the union of the trees' edges ({len(all_edges)})")
             ctx.check(len(fe) == n - len(comps), tag + "edge-count", f"{len(fe)} forest edges for {n} elements in {len(comps)} components")
+            # the returned list is the caller's: editing it must not change the forest
+            before = list(fe)
+            fe.append((-1, -1))
+            if fe:
+                fe.pop(0)
+            ok, fe2 = ctx.call(tag + "edges", lambda: forest.edges)
+            if ok:
+                ctx.check(list(fe2) == before, tag + "edges-aliased", "editing the list returned by forest.edges changed what forest.edges returns next")
     for order in ("BFS", "DFS"):
         sig = tag + "traverse:" + order + ":"
         ok, seq = ctx.call(sig + "call", lambda: list(forest.traverse(order)))
@@ -967,7 +1076,12 @@ def validate_forest(ctx, tag, mk, n, adm, fset, fsnap):
         pos = {v: i for i, v in enumerate(nodes)}
         late = [(v, p) for v, p in seq if p is not None and pos[p] > pos[v]]
         ctx.check(not late, sig + "parents-first", f"forest.traverse('{order}') yields {late[:4]} before their parents")
+    check_traverse_histories(ctx, tag, forest)
     return forest
+
+
+OTHER_V = [[float(i), 0.0, 0.0] for i in range(7)]
+OTHER_E = [(0, 1), (1, 2), (3, 4)]                      # components {0,1,2} {3,4} {5} {6}
 
 
 def self_test():
